@@ -19,7 +19,7 @@ import re
 
 import z3
 
-from interp import strip_generics, Interp, Struct, EnumV, Ref, Cell, UNIT, Unsupported, Infeasible, MirPanic, load, Path
+from interp import strip_generics, MirUnwind, Interp, Struct, EnumV, Ref, Cell, UNIT, Unsupported, Infeasible, MirPanic, load, Path
 
 SUMMARY_TEXT = [
     "flume bounded(0) channel: try_send Ok iff a receiver is parked; send blocks until taken; recv_timeout parks until a "
@@ -69,7 +69,7 @@ class Pool:
                         return int(m.group(1))
         raise Unsupported("no field of type %s in %s" % (ty_regex, fn.name))
 
-    def run_schedule(self, path, limit, plan, short_timeouts=False):
+    def run_schedule(self, path, limit, plan, short_timeouts=False, panics=False):
         """plan: list of per-dispatcher job counts, e.g. [1, 1] or [2]."""
         W = type("W", (), {})()
         W.counter = Cell(z3.BitVecVal(0, 64))
@@ -77,6 +77,7 @@ class Pool:
         W.mailbox = {}           # worker id -> job handed over
         W.pending = []           # blocked senders: [job, taken?]
         W.running = 0
+        W.inflight = 0
         W.violation = None
         W.jobs = {}
         W.threads = {}
@@ -84,7 +85,10 @@ class Pool:
         W.worker_seq = [0]
         dispatch_fn = self.find("::dispatch", "AsyncifyPool")
         closure_fn = self.fns.get("worker::{closure#0}")
-        guard_drop = self.find("::drop", "CounterGuard")
+        try:
+            guard_drop = self.find("::drop", "CounterGuard")
+        except Unsupported:
+            guard_drop = None          # a tree without the drop guard: nothing runs on the worker's way out
         if closure_fn is None:
             raise Unsupported("worker::{closure#0} not in the MIR dump")
         i_sender = self.field_index(dispatch_fn, r"flume::Sender<.*>")
@@ -108,6 +112,8 @@ class Pool:
                 return old
             if op == "fetch_add":
                 cell.v = old + a[1]
+                if str(W.current).startswith("D"):
+                    W.inflight += 1         # a dispatcher reserved a slot for a worker it is about to spawn
             elif op == "fetch_sub":
                 cell.v = old - a[1]
             elif op == "store":
@@ -119,6 +125,8 @@ class Pool:
                 r = yield from I.call_closure(clo, [old], p)
                 if r.variant == 1:
                     cell.v = r.fields[0].v
+                    if str(W.current).startswith("D"):
+                        W.inflight += 1
                     return EnumV(0, [Cell(old)])
                 return EnumV(1, [Cell(old)])
             elif op in ("compare_exchange", "compare_exchange_weak"):
@@ -187,6 +195,8 @@ class Pool:
         def spawn(I, a, p, callee):
             wid = "K%d" % (len([t for t in W.threads if t.startswith("K")]) + len(W.new_threads) + 1)
             W.new_threads.append((wid, a[0]))
+            if W.inflight > 0:
+                W.inflight -= 1
             return ("opaque", "JoinHandle")
 
         def run_job(I, a, p, callee):
@@ -203,6 +213,9 @@ class Pool:
             yield ("step", "job %s running" % (tok[1] if isinstance(tok, tuple) else tok))
             W.running -= 1
             W.jobs[tok[1]]["runs"] += 1
+            if panics and tok[1].endswith(".j0"):
+                # a job handed to the pool directly is not wrapped in catch_unwind: its panic unwinds the worker
+                raise MirUnwind("job %s panicked" % tok[1])
             return UNIT
 
         def panic_call(I, a, p, callee):
@@ -212,7 +225,7 @@ class Pool:
             return UNIT
 
         def drop_hook(I, v, p, ty):
-            if ty and "CounterGuard" in ty:
+            if ty and "CounterGuard" in ty and guard_drop is not None:
                 return I.call_fn(guard_drop, [Ref(Cell(v))], p)
             return None
 
@@ -248,6 +261,10 @@ class Pool:
                     tok = back.f[0].v if isinstance(back, Struct) else back
                     if tok != job:
                         W.violation = "saturated dispatch handed back something else than the submitted job"
+                    live = len([t for t in alive if t.startswith("K")]) + len(W.new_threads) + W.inflight
+                    if live < limit and W.violation is None:
+                        W.violation = ("submission rejected as 'all threads are busy' while only %d of %d worker slots "
+                                       "are held by live workers (slot leaked)" % (live, limit))
                     W.jobs[name]["returned"] += 1
                     tries += 1
                     if tries >= 2:
@@ -256,7 +273,10 @@ class Pool:
             return
 
         def worker_thread(wid, closure):
-            yield from I.call_fn(closure_fn, [closure], path)
+            try:
+                yield from I.call_fn(closure_fn, [closure], path)
+            except MirUnwind:
+                return      # the worker thread died of the job's panic (its locals were dropped on the way out)
 
         threads = W.threads
         for d, n in enumerate(plan):
@@ -331,7 +351,7 @@ class Pool:
         return verdict, steps
 
 
-def explore_schedules(pool, limit, plan, seed=0, max_paths=300000, short_timeouts=False):
+def explore_schedules(pool, limit, plan, seed=0, max_paths=300000, short_timeouts=False, panics=False):
     from explore import _expand
     stack = [[]]
     npaths = steps = queries = 0
@@ -340,7 +360,7 @@ def explore_schedules(pool, limit, plan, seed=0, max_paths=300000, short_timeout
         dec = stack.pop()
         p = Path(dec, seed)
         try:
-            verdict, st = pool.run_schedule(p, limit, plan, short_timeouts)
+            verdict, st = pool.run_schedule(p, limit, plan, short_timeouts, panics)
         except Infeasible:
             _expand(stack, dec, p, upto=p.pos)
             continue
